@@ -61,7 +61,7 @@ def request_sequences(depth: int, acc: Acc):
 # and textual order disagree.  Whatever is requested next must not be one of them.
 
 RESERVE_IDX = (0, 1, 2, 9, 10, 11, 99, 100)
-RESERVE_KINDS = ("synth_asign", "loop")
+RESERVE_KINDS = ("synth_asign", "loop", "fan-out", "a.b c")
 
 
 def _name(flavour, kind, idx):
